@@ -35,6 +35,7 @@ import NeoModel.Proofs.DbftStuck
 import NeoModel.Proofs.DbftProposalX
 import NeoModel.Proofs.DbftTimedExec
 import NeoModel.Proofs.DbftEpochBlock
+import NeoModel.Proofs.DbftWitnessM
 namespace NeoModel.Dbft
 
 /-! ### 1. Agreement -/
@@ -566,5 +567,45 @@ theorem next_consensus_m6_regression :
 -- non-vacuity of the scenario: 4 keys up to block 7, 7 keys from block 8, 4 again from block 15
 example : (List.range 17).map (Epoch.signers 7 4 (fun h => if h < 7 then 4 else if h < 14 then 7 else 4)) =
     [4, 4, 4, 4, 4, 4, 4, 7, 7, 7, 7, 7, 7, 7, 4, 4, 4] := by decide
+
+/-! ### 11. The block witness has exactly M signatures (machine model; schedule class "one validator is last within a view")
+
+A validator that hears the PrepareRequest last holds the Commits of ALL the others when it signs (dbft stores Commits that
+arrive before the request, dbft.go:630-642): `checkCommit` runs with N > M Commits of the view. `getBlockWitness`
+(consensus.go:666-696) must emit exactly M of them for the M-of-N script. -/
+
+/-- C19 (witness shape): for EVERY set of held Commits of the current view with at least M members, the witness has exactly
+M signatures … -/
+theorem block_witness_exactly_M (e : Mach.Env) (nd : Mach.Node) (b : Block) (h : e.m ≤ Mach.viewCommits e nd) :
+    (Mach.blockWitness e nd b).length = e.m :=
+  Mach.blockWitness_length e nd b h
+
+/-- … each from a Commit of the node's current view, held in the signer's own slot … -/
+theorem block_witness_from_view (e : Mach.Env) (nd : Mach.Node) (b : Block) (s : Nat × Bool)
+    (hs : s ∈ Mach.blockWitness e nd b) :
+    s.1 < e.n ∧ ∃ x sb, Mach.slot nd.commit s.1 = some (.commit x sb) ∧ x.v = nd.view ∧ s.2 = decide (sb = b) :=
+  Mach.blockWitness_from_view e nd b s hs
+
+/-- … in validator order, nobody twice. -/
+theorem block_witness_in_validator_order (e : Mach.Env) (nd : Mach.Node) (b : Block) :
+    (Mach.blockWitness e nd b).Pairwise (fun s t => s.1 < t.1) :=
+  Mach.blockWitness_ordered e nd b
+
+/-- Hypothesis removed: in every state of the refinement invariant `RN` (all reachable machine states, §8), passing
+`checkCommit`'s own threshold implies the premise of `block_witness_exactly_M` — the model's "ledger rejects a witness of
+the wrong length" branch is dead. -/
+theorem check_commit_witness_exact {e : Mach.Env} {as : State} {i : Nat} {nd : Mach.Node} (h : Mach.RN e as i nd)
+    (b : Block)
+    (hc : ¬ (nd.commit.filter fun s => match s with
+      | some m => m.hd.v == nd.view
+      | none => false).length < e.m) :
+    (Mach.blockWitness e nd b).length = e.m ∧ (Mach.blockWitness e nd b).Pairwise (fun s t => s.1 < t.1) :=
+  Mach.checkCommit_witness_exact h b hc
+
+/-- regression (seeded C19-m7, the `j < m` cap removed): a validator holding more than M Commits of the view emits more
+than M signatures. -/
+theorem block_witness_uncapped_regression (e : Mach.Env) (nd : Mach.Node) (b : Block) (h : e.m < Mach.viewCommits e nd) :
+    e.m < (Mach.blockWitnessUncapped e nd b).length :=
+  Mach.uncapped_too_long e nd b h
 
 end NeoModel.Dbft
